@@ -436,6 +436,38 @@ def authorize {V : Type} (verify : String → Parsed (List (String × V))) (h : 
   | .tok true (some claims) =>
     (r.1, { ran := true, status := 200, ctx := claims.filter fun kv => !standardClaims.contains kv.1 })
 
+/-! ### the option list of `Authorize` (rest/handler/authhandler.go: `for _, opt := range opts { opt(&authOpts) }`) -/
+
+/-- `AuthorizeOption`: `WithPrevSecret(s)` / `WithUnauthorizedCallback(cb)` (`present` = a non-nil callback) -/
+inductive AuthOption where
+  | prevSecret (s : String)
+  | callback (present : Bool)
+  deriving Repr, DecidableEq
+
+/-- `AuthorizeOptions` -/
+structure AuthOpts where
+  prev     : String := ""
+  callback : Bool := false
+  deriving Repr, DecidableEq
+
+/-- one option applied: each option ASSIGNS its field (`opts.PrevSecret = secret`, `opts.Callback = callback`) -/
+def AuthOption.apply (o : AuthOpts) : AuthOption → AuthOpts
+  | .prevSecret s => { o with prev := s }
+  | .callback present => { o with callback := present }
+
+/-- the options in force after the loop: for each field the LAST option that sets it wins -/
+def authOptions (opts : List AuthOption) : AuthOpts := opts.foldl AuthOption.apply {}
+
+/-- `Authorize(secret, opts...)(next)` -/
+def authorizeWith {V : Type} (verify : String → Parsed (List (String × V))) (h : Hist) (secret : String)
+    (opts : List AuthOption) (clock : Int) : Hist × AuthOut V :=
+  authorize verify h secret (authOptions opts).prev clock
+
+/-- `unauthorized`: the callback (when there is one) goes first and writes through a header-once writer, then 401 is
+written: the client sees the callback's status when it set one (`some st`; an implicit 200 when it only wrote a body),
+otherwise 401 -/
+def unauthorizedStatus (callbackWrote : Option Nat) : Nat := callbackWrote.getD 401
+
 /-! ### the decision table of golang-jwt/v4 as configured by go-zero (key = `[]byte(secret)`, JSON numbers) -/
 
 inductive TimeClaim where
@@ -628,6 +660,22 @@ def csGateVerdict (strict userCallback gatedMethod covered : Bool) : Option Nat 
   if !gatedMethod || covered then none
   else if userCallback then some 200
   else if strict then some 403 else none
+
+/-- what a request to a bound route ends in, as the rest harness observes it -/
+structure RestObs (V : Type) where
+  ran     : Bool                  -- the route's handler was called
+  status  : Nat
+  ctx     : List (String × V)     -- the context values the handler saw (jwt routes)
+  usesRan : Nat                   -- how many `Server.Use` middlewares saw the request
+  deriving Repr, DecidableEq
+
+/-- serving a request through the chain `bindRoute` bound: the two gates decide (`authOut` = `Authorize`'s outcome, `cs` =
+the content-security gate's verdict), every other middleware passes the request on -/
+def restServe {V : Type} (o : RouteOpts) (uses chn : List String) (authOut : AuthOut V) (cs : Option Nat) : RestObs V :=
+  { ran := (runChain (gateVerdict (authVerdict authOut) cs) chn).ran,
+    status := (runChain (gateVerdict (authVerdict authOut) cs) chn).status,
+    ctx := if (runChain (gateVerdict (authVerdict authOut) cs) chn).ran && o.jwt then authOut.ctx else [],
+    usesRan := ((runChain (gateVerdict (authVerdict authOut) cs) chn).saw.filter fun n => uses.contains n).length }
 
 /-! ## the decrypters of ONE route group (rest/engine.go `signatureVerifier`, the loop over `signature.PrivateKeys`) -/
 
